@@ -20,6 +20,9 @@ def handlers : List (String × Handler) := [
       | some r => enc (nearestBonds r (unhex x))
       | none => str "unknown"
     | _ => str "bad-op"),
+  ("repairfit.link", fun a => match a with
+    | [c, n, far] => let r := peptideLink (decBool c) (decBool n) (decBool far); encBool r.1 ++ encBool r.2
+    | _ => str "bad-op"),
   ("repairfit.fit", fun a => match a with
     | [name, patches, present, x] =>
       match refOf name patches with
